@@ -21,6 +21,18 @@ MIG_COLUMNS = ["id", "account_id", "status", "note_split_fee_buffer", "note_spli
                "uuid", "committed_height"]
 
 
+TABLE_KEYS = ("migrations", "transactions", "transaction_deps", "crossing_values", "prep_inputs", "prep_outputs",
+              "prep_direct_funding", "spend_nullifiers")
+OTHER_COLUMNS = {
+    "create_crossing_values_sql": ["migration_id", "ordinal", "value"],
+    "create_prep_inputs_sql": ["migration_id", "layer", "tx_index", "ordinal", "source", "wallet_index", "prior_layer",
+                               "prior_transaction", "prior_output", "value"],
+    "create_prep_outputs_sql": ["migration_id", "layer", "tx_index", "ordinal", "role", "value"],
+    "create_prep_direct_funding_sql": ["migration_id", "ordinal", "wallet_index", "value"],
+    "create_spend_nullifiers_sql": ["migration_id", "transfer_id", "ordinal", "nullifier"],
+}
+
+
 def _table_columns(fn):
     """column names of the CREATE TABLE statement built by `fn` in store.rs"""
     body = _fn_body(STORE, fn)
@@ -48,7 +60,7 @@ def _table_names():
     if not m:
         raise SrcgenError("orchard_ironwood.rs: TABLES not found")
     names = dict(re.findall(r"(\w+):\s*\"([A-Za-z0-9_]+)\"", m.group(1)))
-    for k in ("migrations", "transactions", "transaction_deps"):
+    for k in TABLE_KEYS:
         if k not in names:
             raise SrcgenError("orchard_ironwood.rs TABLES: %s missing" % k)
     return names
@@ -98,7 +110,7 @@ class C18(Config):
     corr_targets = ["C18/Corr.vo", "C18/Wf.vo"]
     audit_dirs = ["Lib", "Gen", "C18"]
     header = ("From V.Lib Require Import Base.\n"
-              "From V.C18 Require Import Model Spec Store Corr Wf.\n"
+              "From V.C18 Require Import Model Spec Store StoreFull Corr Wf.\n"
               "Local Open Scope Z_scope.")
     bin = "c18"
     release_too = False
@@ -117,7 +129,7 @@ class C18(Config):
         "vlib/props/c18.py extractors (constants of scheduling.rs / zip318.rs, shape checks of next_step, next_broadcastable, is_terminal, advance_migration)",
         "harness/wallet/src/bin/c18.rs: state printers, scripted PoolMigrationWrite store (oracle tables), scripted RNG, SQLite round-trip comparison by Rust PartialEq",
         "the model omits PCZT bytes, lock owners, nullifier caches and the advisory outlook (Advance::next)",
-        "coq/C18/Store.v is a row-level model of store.rs written by reading; it is tied to the code only through the SQLite verdicts of the persistence stream (replace_migration / latest_migration / get_migration / list_migrations on a real wallet database at every step)",
+        "coq/C18/Store.v and StoreFull.v: row-level model of store.rs; tied to the code by regenerated table names / column lists (fail closed), by full-row dumps of every table compared with the model's save output at each persisted step, and by the load-back verdicts (SQLite and the in-memory backend)",
     ]
     assumptions = [
         "transaction ids unique within a migration (the store keys rows by id; with duplicate ids the code's drive loop itself need not terminate)",
@@ -126,15 +138,15 @@ class C18(Config):
         "rebuild: the wallet/crypto half of rebuild_expired_transfer (funding note, anchor draw, PCZT build, signing) is an oracle bit plus the observed new schedule / anchor / txid",
     ]
     partial_clauses = [
-        "store_roundtrip is proved on the row model for the transaction and dependency tables; the model's save output is compared with plain SELECT dumps of the real tables at every persisted step; denomination / preparation-plan / nullifier / PCZT / lock-owner columns are covered by the SQLite load-back verdicts only",
-        "the fuel (64 draws) of the modelled anchor rejection sampler is not proved sufficient; it depends on the RNG script, which the harness builds to contain an accepted age (dead-set loop, durable closure loop and drive loop fuels are proved sufficient)",
+        "byte strings in the store model (PCZT, lock owner, nullifier) are opaque (length, FNV-1a-64) tokens; the model's save output is compared with plain SELECT dumps of ALL normalised tables at every persisted step",
+        "the outlook (Advance::next / upcoming_step) and sync_wakeup_schedule (C17) are not modelled",
     ]
 
     def harness_args(self, tier, seed, search=False):
         a = Config.harness_args(self, tier, seed, search)
         try:
             n = _table_names()
-            a += ["--tables", "%s,%s,%s" % (n["migrations"], n["transactions"], n["transaction_deps"])]
+            a += ["--tables", ",".join(n[k] for k in TABLE_KEYS)]
         except SrcgenError:
             pass            # reported by gen(); the harness falls back to its built-in names
         return a
@@ -142,22 +154,29 @@ class C18(Config):
     @staticmethod
     def gen():
         names = _table_names()
-        for fn, want in (("create_transactions_sql", TX_COLUMNS), ("create_transaction_deps_sql", DEP_COLUMNS),
-                         ("create_migrations_sql", MIG_COLUMNS)):
+        for fn, want in [("create_transactions_sql", TX_COLUMNS), ("create_transaction_deps_sql", DEP_COLUMNS),
+                         ("create_migrations_sql", MIG_COLUMNS)] + sorted(OTHER_COLUMNS.items()):
             got = _table_columns(fn)
             if got != want:
                 raise SrcgenError("store.rs %s: columns %s differ from the modelled %s" % (fn, got, want))
         _order(_fn_body(STORE, "read_transactions"), ["ORDER BY transfer_id", "MigrationTxKind::from_stored(", "MigrationTxState::from_stored(",
                                                       "read_deps(", "unsatisfiable_at / unsatisfiable_kind disagree"], "store.rs read_transactions")
+        _order(_fn_body(STORE, "read_preparation"), ["UNION", "ORDER BY layer, tx_index", "layer == layers.len() && tx_index == 0",
+                                                     "layer + 1 == layers.len() && tx_index == layers[layer].len()", "non-contiguous",
+                                                     "read_prep_inputs(", "read_prep_outputs(", "ORDER BY ordinal"], "store.rs read_preparation")
+        _order(_fn_body(STORE, "read_spend_nullifiers"), ["ORDER BY ordinal"], "store.rs read_spend_nullifiers")
         _order(_fn_body(STORE, "read_deps"), ["SELECT depends_on_transfer_id", "ORDER BY ordinal"], "store.rs read_deps")
         _order(_fn_body(STORE, "resolve_migration_id"), ["status NOT IN", "terminal_status_sql_list()"], "store.rs resolve_migration_id")
         q = lambda l: "[" + "; ".join('"%s"' % c for c in l) + "]"
-        srcgen.write_gen("C18Store", "From Coq Require Import String List.\nImport ListNotations.\nLocal Open Scope string_scope.\n"
-                         "Definition TX_COLUMNS : list string := %s.\nDefinition DEP_COLUMNS : list string := %s.\n"
-                         "Definition TABLE_MIGRATIONS : string := \"%s\".\nDefinition TABLE_TRANSACTIONS : string := \"%s\".\n"
-                         "Definition TABLE_TRANSACTION_DEPS : string := \"%s\".\n"
-                         % (q(_table_columns("create_transactions_sql")), q(_table_columns("create_transaction_deps_sql")),
-                            names["migrations"], names["transactions"], names["transaction_deps"]))
+        body = "From Coq Require Import String List.\nImport ListNotations.\nLocal Open Scope string_scope.\n"
+        body += "Definition TX_COLUMNS : list string := %s.\n" % q(_table_columns("create_transactions_sql"))
+        body += "Definition DEP_COLUMNS : list string := %s.\n" % q(_table_columns("create_transaction_deps_sql"))
+        body += "Definition MIGRATIONS_COLUMNS : list string := %s.\n" % q(_table_columns("create_migrations_sql"))
+        for fn in sorted(OTHER_COLUMNS):
+            body += "Definition %s_COLUMNS : list string := %s.\n" % (fn.replace("create_", "").replace("_sql", "").upper(), q(_table_columns(fn)))
+        for k in TABLE_KEYS:
+            body += "Definition TABLE_%s : string := \"%s\".\n" % (k.upper(), names[k])
+        srcgen.write_gen("C18Store", body)
         depth = srcgen.int_const(SCHED, "PROVABLE_ANCHOR_DEPTH")
         cap = srcgen.int_const(ZIP318, "ANCHOR_AGE_CAP")
         mean = _nonzero_const(ZIP318, "TRANSFER_DELAY_MEAN")
